@@ -609,7 +609,10 @@ func runC08(s *kernel.Sim, enumerate bool) {
 	body2, _ := json.Marshal(map[string]any{"flows": map[string]string{"fb.yaml": base64.StdEncoding.EncodeToString([]byte(probeFlow("fb", "a.com/p5", 415)))}})
 	for st := 0; st < 6000; st++ {
 		p := s.ParkedTasks()
-		if secondUpdate && upd2 == nil && upd.Parked() && upd.Point != "task.start" && tp.Chance(1, 6) {
+		// (not while the first one still stands in front of the handler's guard - the
+		// non-waiting lock attempt is a scheduling point too: a second update that runs
+		// there simply comes first, one after the other)
+		if secondUpdate && upd2 == nil && upd.Parked() && upd.Point != "task.start" && upd.Point != "fault.trylock" && tp.Chance(1, 6) {
 			upd2 = s.Spawn("update2", func() {
 				rec2 = httptest.NewRecorder()
 				env.mux.ServeHTTP(rec2, httptest.NewRequest(http.MethodPut, "/configuration", bytes.NewReader(body2)))
